@@ -87,7 +87,18 @@ def nearmiss_programs(ctx, rng, n):
         if i % 4 == 3:
             # package documentation whose lines start with keywords
             d = "// Package d is documented at length.\n// @packageonly restrictions are deliberately absent here.\n// @testonly helpers live elsewhere.\n// @immutable\n" + d
-        pkgs = [{"path": "m/d", "name": "d", "files": [{"name": "d/d.go", "src": d}]}]
+        if i % 3 != 1:
+            # a free-floating note (empty lines on both sides) in front of documented declarations
+            d = d.replace("// T is immutable and has a constructor.\n", "// Historical note, kept for the record:\n// @immutable\n// @constructor NewT\n\n// T is immutable and has a constructor.\n", 1)
+            d = d.replace("// TF is a test helper.\n", "// @testonly\n\n// TF is a test helper.\n", 1)
+            d = d.replace("type S struct{}", "// @immutable\n// @packageonly\n\ntype S struct{}", 1)
+        dfiles = [{"name": "d/d.go", "src": d}]
+        if i % 3 == 0:
+            # an earlier file of the package whose function body carries a keyword comment on every line number the other file has
+            kws = ["// @testonly", "// @immutable", "// @packageonly", "// @constructor NewT", "// @mutable"]
+            body = ["package d", "", "func bodyNotes() {"] + ["\t" + kws[k % len(kws)] for k in range(d.count("\n") + 10)] + ["}", ""]
+            dfiles.insert(0, {"name": "d/a_body.go", "src": "\n".join(body)})
+        pkgs = [{"path": "m/d", "name": "d", "files": dfiles}]
         for p in ("u", "w"):
             src, _where = gen_all.use_file(p, "%s/a.go" % p, codes=non_impl)
             src += "\nfunc viaIface(i d.I) string { return i.M(1) }\n"
